@@ -92,10 +92,17 @@ type Config struct {
 	Cache     string  `json:"cache"`     // none | big | tiny1..tiny3 | arc
 	Marshaler string  `json:"marshaler"` // json | custom
 	LKLayers  []uint8 `json:"lk_layers,omitempty"`
+	// Cmp "scaled": the loader is given a KeyCompare that returns 3x the default result
+	// (only the sign of a comparison is meaningful).
+	Cmp string `json:"cmp,omitempty"`
 }
 
 func (c Config) String() string {
-	return fmt.Sprintf("bf=%d %s key=%s val=%s cache=%s marsh=%s", c.BF, c.Format, c.Key, c.Val, c.Cache, c.Marshaler)
+	s := fmt.Sprintf("bf=%d %s key=%s val=%s cache=%s marsh=%s", c.BF, c.Format, c.Key, c.Val, c.Cache, c.Marshaler)
+	if c.Cmp != "" {
+		s += " cmp=" + c.Cmp
+	}
+	return s
 }
 
 // ---- marshalers -----------------------------------------------------------
